@@ -17,7 +17,7 @@ def run(ctx):
     jobs = [dict(ctx=ctx, binary=binary, name="st%d" % k, stacks=st[k::parts], outs=seq.OUTS4 if quick else seq.OUTS3, maxcalls=3, execs=1, workers=8) for k in range(parts)]
     # what a retry policy's delay function reads (LastResult / LastError of the attempt that just failed) decides the delay
     # (no hedge above it: the sequential machine's hedges never fire)
-    rdf = [["rpDF"], ["rpDF", "cbA"], ["fbR", "rpDF"], ["rpDF", "rp"], ["rp", "rpDF"], ["to", "rpDF"], ["rpDF", "bh1"]]
+    rdf = [["rpDF"], ["rpDF", "cbA"], ["fbR", "rpDF"], ["rpDF", "rp"], ["rp", "rpDF"], ["to", "rpDF"], ["rpDF", "bh1"], ["rp3", "cbDF"], ["rpDF", "cbDF"], ["cbDF"]]
     jobs.append(dict(ctx=ctx, binary=binary, name="rdf", stacks=rdf, outs=seq.OUTS4, maxcalls=3, execs=1, workers=4))
     mism = seq.run_jobs(ctx, jobs, par=2)
     seq.report(ctx, mism, accept)
